@@ -12,7 +12,9 @@ CLAIM = {
           'writer output is the LIS-79 encoding and the reported positions are the sums of the record sizes '
           '(writer_layout), every history of read/skip/next/seek/tell on an encoded file is answered exactly as the '
           'abstract record-cursor semantics says (read_refines, seek_any_order), stripping the TIF markers gives the '
-          'unmarked file (strip_tif_encode, strip_tif_write). The model is tied to the code on every run by correspondence streams '
+          'unmarked file (strip_tif_encode, strip_tif_write); the reader handed out by '
+          'file_read_with_best_physical_record_pad_settings on an unpadded written file is the (keepGoing, pad 0) reader '
+          'and refines the same semantics (pad_tie_order, scan_counts_records, pad_reader_refines[_cond]). The model is tied to the code on every run by correspondence streams '
           '(writer bytes and tells, reader histories incl. malformed files, strip_tif) and the property is evaluated '
           'on the implementation alone against an independent Python layout and list slicing.'),
  'note': ('Trusted: Lean kernel; model<->code correspondence on the cases of the run. Reader modelled for the FileRead '
@@ -25,10 +27,15 @@ CLAIM = {
 RULE = ('files: all 8 trailer combinations x TIF off/normal/reversed in rotation, max PR length from the minimum '
         '(header+trailer+1) upward plus a few near 65535, 0-7 records of 1 byte..several PRs; per file one history of '
         '50-500 operations (read n / skip n / read rest / skip rest / skipToNextLr / seekLr(record i) / tellLr) drawn '
-        'with n around PR and record boundaries; a malformed stream (truncations, flipped header bits, wrong TIF words). '
+        'with n around PR and record boundaries; the same whole-read/history oracle through '
+        'file_read_with_best_physical_record_pad_settings(pr_limit 1/5/100/0) on unpadded files of every layout, on files '
+        'whose first k PRs end on 4-byte boundaries with a later odd one (k around pr_limit) and on padded files (null '
+        'padding to 2/4; non-null padding with TIF markers); a malformed stream (truncations, flipped header bits, wrong TIF words). '
         'A case is non-trivial when its history returns bytes of at least two records and crosses a PR boundary inside '
         'a sized read or skip; distinct by (layout, record lengths, history).')
-ASSUMPTIONS = ['io.BytesIO read/seek/tell semantics (read returns at most n bytes and advances by what it returned)',
+ASSUMPTIONS = ['padded files (outside FileWrite) are exercised only where the scan heuristic is determinate: null padding, or '
+               'non-null padding under TIF markers; non-null padding without TIF can tie with a mis-synchronised scan',
+               'io.BytesIO read/seek/tell semantics (read returns at most n bytes and advances by what it returned)',
                'reader constructed with the FileRead defaults keepGoing=False, pad_modulo=0, pad_non_null=False',
                'logical records are non-empty (the writer emits nothing for an empty record)',
                'a TIF-marked file holds at least one record; files are shorter than 2**32 - 24 bytes (32-bit TIF words)',
@@ -89,10 +96,11 @@ def impl_write(mods, lay, recs):
     return f'ok {hx(out)} {",".join(map(str, tells))}', (out, tells)
 
 
-def impl_history(mods, data, ops):
-    """ops: list of ('r', n) ('s', n) ('n',) ('k', offset) ('t',). Returns list of canonical replies."""
+def impl_history(mods, data, ops, reader=None):
+    """ops: list of ('r', n) ('s', n) ('n',) ('k', offset) ('t',). Returns list of canonical replies.
+    reader: a FileRead obtained some other way (pad-settings entry point) instead of FileRead(BytesIO(data))."""
     File, PhysRec, TifMarker = mods[0], mods[1], mods[2]
-    fr = File.FileRead(io.BytesIO(data), 'c05', False)
+    fr = reader if reader is not None else File.FileRead(io.BytesIO(data), 'c05', False)
     out, halted = [], False
     for op in ops:
         if halted:
@@ -313,6 +321,143 @@ def check_case(ctx, mods, lay, recs, ops, want_nontriv=True):
     return res
 
 
+# ------------------------------------------------------------------ reader obtained through the pad-settings heuristic
+
+PR_LIMITS = (1, 5, 100, 0)
+
+
+def impl_best(mods, data, limit):
+    """File.best_physical_record_pad_settings -> canonical 'pad_modulo,pad_non_null' | 'None' | 'X:<exception>'."""
+    File = mods[0]
+    try:
+        st = File.best_physical_record_pad_settings(io.BytesIO(data), limit)
+    except Exception as e:
+        return 'X:' + type(e).__name__
+    return 'None' if st is None else '%d,%d' % (st.pad_modulo, int(st.pad_non_null))
+
+
+def impl_scan_counts(mods, data, limit):
+    """File.scan_file_with_different_padding(keep_going=True) -> the six counts in dict order."""
+    try:
+        d = mods[0].scan_file_with_different_padding(io.BytesIO(data), True, limit)
+    except Exception as e:
+        return 'X:' + type(e).__name__
+    return ','.join(str(v) for v in d.values())
+
+
+def check_pad_case(ctx, mods, lay, recs, ops, pad, limit):
+    """Oracle for File.file_read_with_best_physical_record_pad_settings(fobj, id, pr_limit): the reader it returns
+    must answer every history exactly like the records say. pad = None (file as FileWrite writes it) | (modulo, fill)."""
+    lis = _lis()
+    tif, prmax, rec, fnum, chk = lay
+    File = mods[0]
+    case = {'op': 'pad', 'layout': list(lay), 'records': [r.hex() for r in recs], 'ops': [list(o) for o in ops],
+            'pad': None if pad is None else [pad[0], pad[1] if isinstance(pad[1], int) else pad[1].hex()], 'limit': limit}
+    data, tells, _ = lis.layout(recs, prmax, (bool(rec), fnum, bool(chk)), tif, pad)
+    ctx.count('oracle_cases')
+    best = impl_best(mods, data, limit)
+    try:
+        fr = File.file_read_with_best_physical_record_pad_settings(io.BytesIO(data), 'c05', limit)
+    except Exception as e:
+        ctx.fail(dict(case, ops=[]), f'file_read_with_best_physical_record_pad_settings raised {type(e).__name__}')
+        return data, best, None
+    if fr is None:
+        ctx.fail(dict(case, ops=[]), 'no reader returned (pad settings: %s) for a well-formed file' % best)
+        return data, best, None
+    whole = [('r', -1)] * (len(recs) + 1) + [('t',)]
+    allops = whole + [('k', 0)] + list(ops) if recs else whole
+    conc = [('k', tells[o[1]]) if o[0] == 'k' else o for o in allops]
+    got = impl_history(mods, data, conc, reader=fr)
+    want = reference_history(recs, tells, allops)
+    if got != want:
+        i = next(i for i, (x, y) in enumerate(zip(got, want)) if x != y)
+        short = allops[:i + 1]
+        ctx.fail(dict(case, ops=[list(o) for o in short[len(whole) + 1:]] if i > len(whole) else []),
+                 f'reader from pad settings {best} (pr_limit={limit}): operation #{i} {allops[i]}: got {got[i][:60]} '
+                 f'expected {want[i][:60]}')
+    else:
+        ctx.nontriv(('pad', lay, tuple(len(r) for r in recs), str(pad), limit))
+    return data, best, (got, conc)
+
+
+def gen_aligned_prefix(rng, k, j):
+    """A file whose first k physical records all end on 4-byte boundaries, then one of odd length, then more records.
+    j selects trailer combination and TIF mode."""
+    combo = j % 8
+    rec, hasfn, chk = bool(combo & 1), bool(combo & 2), bool(combo & 4)
+    tif = (j // 8) % 3
+    fnum = rng.choice(FILE_NUMS) if hasfn else None
+    tl = 2 * rec + 2 * hasfn + 2 * chk
+    base = (-(4 + tl)) % 4 or 4                  # payload lengths p with (4 + p + tl) % 4 == 0
+    mp = base + 4 * rng.randint(0, 6)
+    lay = (tif, 4 + tl + mp, int(rec), fnum, int(chk))
+    recs, prs = [], 0
+    while prs < k:
+        if rng.random() < 0.3 and prs + 3 <= k:
+            m = rng.randint(2, 3); recs.append(bytes(rng.getrandbits(8) for _ in range(mp * m))); prs += m
+        else:
+            p = base + 4 * rng.randint(0, (mp - base) // 4); recs.append(bytes(rng.getrandbits(8) for _ in range(p))); prs += 1
+    odd = [q for q in range(1, mp + 1) if (4 + q + tl) % 2 == 1]
+    recs.append(bytes(rng.getrandbits(8) for _ in range(rng.choice(odd))))
+    for _ in range(rng.randint(2, 4)):
+        recs.append(bytes(rng.getrandbits(8) for _ in range(rng.randint(1, 3 * mp))))
+    if tif == 2 and first_next(lay, recs) in (0x100, 0x10000):
+        recs[0] = recs[0] + bytes(4)
+    return lay, recs
+
+
+def run_pad(ctx, mods, cases):
+    """Pad-settings entry points: unpadded written files (all layouts, pr_limit 1/5/100/0), files whose first k PRs are
+    4-byte aligned with a later odd one (k around pr_limit), padded files (null padding; non-null with TIF markers)."""
+    rng = ctx.rng
+    todo = []   # (lay, recs, ops, pad, limit)
+    small = [c for c in cases if sum(map(len, c[1])) < 3000 and c[1]
+             and not (c[0][0] == 2 and first_next(c[0], c[1]) in (0x100, 0x10000))]
+    for idx, (lay, recs, ops) in enumerate(small[:ctx.n(700, 6000)]):
+        for limit in (PR_LIMITS if idx % 4 == 0 else (PR_LIMITS[idx % 4],)):
+            todo.append((lay, recs, ops[:60] if idx % 3 else ops, None, limit))
+    j = 0
+    for limit in (1, 5, 100):
+        for k in (max(limit - 1, 1), limit, limit + 1, limit + 3):
+            for _ in range(ctx.n(24, 240) if limit < 100 else ctx.n(6, 48)):
+                lay, recs = gen_aligned_prefix(rng, k, j); j += 1
+                todo.append((lay, recs, gen_history(rng, lay, recs, 40), None, limit))
+                if j % 5 == 0:
+                    todo.append((lay, recs, [], None, 0))
+    for j2 in range(ctx.n(400, 4000)):
+        lay = gen_layout(rng, j2)
+        recs = gen_records(rng, lay)
+        if not recs or (lay[0] == 2 and first_next(lay, recs) in (0x100, 0x10000)):
+            continue
+        fill = 0 if (lay[0] == 0 or rng.random() < 0.5) else rng.choice([0x20, 0xFF, 1, b'\x01\x02'])
+        todo.append((lay, recs, gen_history(rng, lay, recs, 40), (rng.choice([2, 4]), fill), 0))
+    lines_b, lines_h, impl_b, impl_h, small_cases = [], [], [], [], []
+    for lay, recs, ops, pad, limit in todo:
+        data, best, gc = check_pad_case(ctx, mods, lay, recs, ops, pad, limit)
+        sc = {'layout': list(lay), 'record_lengths': [len(r) for r in recs], 'pad': str(pad), 'pr_limit': limit}
+        lines_b.append(f'best {hx(data)} {limit}'); impl_b.append(best + ' ' + impl_scan_counts(mods, data, limit))
+        small_cases.append(sc)
+        if gc is not None:
+            lines_h.append((f'hb {hx(data)} {limit} {show_ops(gc[1])}', ','.join(gc[0]), sc))
+    # malformed files: the scan heuristic alone (model vs implementation)
+    for j in range(ctx.n(300, 3000)):
+        lay, recs, ops, pad, limit = todo[rng.randrange(len(todo))]
+        data = mutate_file(rng, _lis().write_lis(recs, lay[1], (bool(lay[2]), lay[3], bool(lay[4])), lay[0], pad), lay)
+        limit = rng.choice(PR_LIMITS)
+        lines_b.append(f'best {hx(data)} {limit}')
+        impl_b.append(impl_best(mods, data, limit) + ' ' + impl_scan_counts(mods, data, limit))
+        small_cases.append({'file': data.hex() if len(data) < 300 else len(data), 'pr_limit': limit})
+    for line, impl, sc in zip(lines_b, impl_b, small_cases):
+        pass
+    reps = ctx.lean(lines_b)
+    for m, impl, sc in zip(reps, impl_b, small_cases):
+        ctx.corr('best_pad_model', sc, impl, m)
+    reps = ctx.lean([l for l, _, _ in lines_h])
+    for m, (_, impl, sc) in zip(reps, lines_h):
+        ctx.corr('history_padreader_model', sc, impl, m)
+    ctx.count('pad_cases', len(todo))
+
+
 # ------------------------------------------------------------------ malformed files (correspondence only)
 
 def mutate_file(rng, data, lay):
@@ -415,6 +560,8 @@ def run(ctx):
                 'ops': show_ops(cases[30][2])[:300], 'replies': ','.join(results[30]['hist'])[:300]})
     ctx.sample({'layout(tif,prMax,rec,fileNum,chk)': list(cases[77][0]), 'record_lengths': [len(r) for r in cases[77][1]],
                 'ops': show_ops(cases[77][2])[:300]})
+    # ---------------- readers obtained through best_physical_record_pad_settings
+    run_pad(ctx, mods, cases)
     # ---------------- malformed files: model vs implementation only
     mal = []
     for j in range(ctx.n(3000, 30000)):
@@ -451,6 +598,18 @@ def run(ctx):
 def replay(ctx, rec):
     mods = _impl()
     case = rec['case']
+    if case.get('op') == 'pad':
+        lay = tuple(case['layout'])
+        recs = [bytes.fromhex(r) for r in case['records']]
+        ops = [tuple(o) for o in case['ops']]
+        pad = case['pad']
+        if pad is not None:
+            pad = (pad[0], pad[1] if isinstance(pad[1], int) else bytes.fromhex(pad[1]))
+        n0 = len(ctx.failures)
+        check_pad_case(ctx, mods, lay, recs, ops, pad, case['limit'])
+        if len(ctx.failures) > n0:
+            return False, ctx.failures[-1]['detail']
+        return True, 'the reader returned by file_read_with_best_physical_record_pad_settings reads the records back'
     if case.get('op') != 'file':
         return True, 'nothing to replay (no concrete failing input was recorded)'
     lay = tuple(case['layout'])
